@@ -404,3 +404,12 @@ Example C04_ex_assembly :
    Ok (map (fun y => map (fun x => a_at out tt y x) [0; 1; 2]) [0; 1; 2]))
   = Ok [[-1; -1; -1]; [-1; 0; 1]; [-1; 10; 11]].
 Proof. vm_compute. reflexivity. Qed.
+
+(** Tie to the source: the tile-count expression of [Tiles.__init__] and the nested helpers
+    [Tiles.__getitem__._slice] and [Tiles.tile_shape._sz] as regenerated by tools/py2v from the
+    current odc/geo/roi.py (coq/Gen/TilesGen.v, rewritten on every run) are the model
+    (Model/Tiles.v) the theorems above are stated on. *)
+From OG Require Proofs.TilesGenEquiv.
+Theorem C04_source_is_model : OG.Proofs.TilesGenEquiv.tiles_source_is_model.
+Proof. exact OG.Proofs.TilesGenEquiv.tiles_source_is_model_holds. Qed.
+Print Assumptions C04_source_is_model.
